@@ -17,6 +17,8 @@
 //	T:<hexpath> … E            router.Route(path) with items A:<m.m>:<hs> | L:<hs> | T:… E
 //	M:<hexprefix>:<flags> … E  sub := fiber.New(cfg'); items on sub; router.Use(prefix, sub)
 //	                           flags = caseSensitive, strict, late (mounted before populated)
+//	D:<hexprefix>              mount the SAME app object as the preceding M block once more, at this prefix
+//	                           (group composition: a second group with the same registrations)
 //
 // hs    : handler ids joined by '.', each `<id>n` (calls Next) or `<id>s` (sends "h<id>")
 // ptable: `hexpath=hexname.hexname` joined by ',' — Params of that path as an independent
@@ -29,6 +31,8 @@ package main
 import (
 	"fmt"
 	"io"
+	"os"
+	"runtime/debug"
 	"sort"
 	"strconv"
 	"strings"
@@ -105,6 +109,8 @@ func encItems(items []item, out *[]string) {
 			*out = append(*out, "M:"+gen.Hex(it.path)+":"+gen.B(it.cs)+gen.B(it.str)+gen.B(it.late))
 			encItems(it.sub, out)
 			*out = append(*out, "E")
+		case 'D':
+			*out = append(*out, "D:"+gen.Hex(it.path))
 		}
 	}
 }
@@ -174,6 +180,11 @@ func decItems(tok []string, pos *int, depth int, inReg bool) []item {
 			it := item{kind: 'M', path: gen.UnHex(f[1]), cs: f[2][0] == '1', str: f[2][1] == '1', late: f[2][2] == '1'}
 			it.sub = decItems(tok, pos, depth+1, false)
 			out = append(out, it)
+		case f[0] == "D" && len(f) == 2 && !inReg:
+			if len(out) == 0 || (out[len(out)-1].kind != 'M' && out[len(out)-1].kind != 'D') {
+				panic("D without M")
+			}
+			out = append(out, item{kind: 'D', path: gen.UnHex(f[1])})
 		case f[0] == "T" && len(f) == 2:
 			it := item{kind: 'T', path: gen.UnHex(f[1])}
 			it.sub = decItems(tok, pos, depth+1, true)
@@ -260,8 +271,16 @@ func buildReg(r fiber.Register, items []item, tr *rec) {
 
 // build registers items on router r. mounted=true: M items become real sub-apps; false: groups.
 func build(r fiber.Router, items []item, mounted bool, tr *rec) {
+	var lastSub *fiber.App
+	var lastItems []item
 	for _, it := range items {
 		switch it.kind {
+		case 'D':
+			if !mounted {
+				build(r.Group(it.path), lastItems, mounted, tr)
+			} else {
+				r.Use(it.path, lastSub)
+			}
 		case 'R':
 			h := fbHs(it.hs, tr)
 			r.Add(msNames(it.ms), it.path, h[0], h[1:]...)
@@ -273,11 +292,13 @@ func build(r fiber.Router, items []item, mounted bool, tr *rec) {
 		case 'T':
 			buildReg(r.Route(it.path), it.sub, tr)
 		case 'M':
+			lastItems = it.sub
 			if !mounted {
 				build(r.Group(it.path), it.sub, mounted, tr)
 				continue
 			}
 			sub := fiber.New(fiber.Config{CaseSensitive: it.cs, StrictRouting: it.str})
+			lastSub = sub
 			if it.late {
 				r.Use(it.path, sub)
 				build(sub, it.sub, mounted, tr)
@@ -291,7 +312,7 @@ func build(r fiber.Router, items []item, mounted bool, tr *rec) {
 
 func stackObs(app *fiber.App) string {
 	var ms []string
-	for _, st := range app.Stack() {
+	for m, st := range app.Stack() {
 		var rs []string
 		for _, r := range st {
 			ps := make([]string, len(r.Params))
@@ -302,7 +323,11 @@ func stackObs(app *fiber.App) string {
 			if pj == "" {
 				pj = "-"
 			}
-			rs = append(rs, gen.Hex(r.Path)+":"+pj+":"+strconv.Itoa(len(r.Handlers)))
+			row := gen.Hex(r.Path) + ":" + pj + ":" + strconv.Itoa(len(r.Handlers))
+			if r.Method != methods[m] {
+				row += "!method=" + r.Method // Route.Method must name the stack it sits in
+			}
+			rs = append(rs, row)
 		}
 		if len(rs) == 0 {
 			ms = append(ms, "-")
@@ -348,24 +373,45 @@ func probeParams(path string) (ps []string, ok bool) {
 
 type obsT struct{ stackM, stackG, resM, resG, ptable string }
 
-func observe(cs, strict bool, items []item, reqs []reqIn) (o obsT, ok bool) {
+// construct builds one composition and starts it; a panic (registration or startup) is an outcome.
+func construct(cfg fiber.Config, items []item, mounted bool, tr *rec) (app *fiber.App, h fasthttp.RequestHandler, ok bool) {
 	defer func() {
 		if r := recover(); r != nil {
+			if os.Getenv("C04_DEBUG") != "" {
+				fmt.Fprintln(os.Stderr, "panic:", r, encTree(items))
+				fmt.Fprintln(os.Stderr, string(debug.Stack()))
+			}
 			ok = false
 		}
 	}()
+	app = fiber.New(cfg)
+	build(app, items, mounted, tr)
+	h = app.Handler()
+	return app, h, true
+}
+
+func observe(cs, strict bool, items []item, reqs []reqIn) (o obsT, ok bool) {
 	cfg := fiber.Config{CaseSensitive: cs, StrictRouting: strict}
 	trM, trG := &rec{}, &rec{}
-	appM := fiber.New(cfg)
-	build(appM, items, true, trM)
-	appG := fiber.New(cfg)
-	build(appG, items, false, trG)
-	hM, hG := appM.Handler(), appG.Handler()
-	o.stackM, o.stackG = stackObs(appM), stackObs(appG)
+	appM, hM, okM := construct(cfg, items, true, trM)
+	appG, hG, okG := construct(cfg, items, false, trG)
+	if !okG {
+		// the definition tree itself is not a valid program (e.g. a pattern fiber rejects): no case
+		return o, false
+	}
+	o.stackG = stackObs(appG)
+	o.stackM = "panic"
+	if okM {
+		o.stackM = stackObs(appM)
+	}
 	// params table over every Path either composition holds, plus the trailing-slash variant
 	seen := map[string]bool{}
 	var keys []string
-	for _, a := range []*fiber.App{appM, appG} {
+	apps := []*fiber.App{appG}
+	if okM {
+		apps = append(apps, appM)
+	}
+	for _, a := range apps {
 		for _, st := range a.Stack() {
 			for _, r := range st {
 				for _, p := range []string{r.Path, r.Path + "/"} {
@@ -396,7 +442,11 @@ func observe(cs, strict bool, items []item, reqs []reqIn) (o obsT, ok bool) {
 	}
 	var rm, rg []string
 	for _, q := range reqs {
-		rm = append(rm, serve(hM, trM, q))
+		if okM {
+			rm = append(rm, serve(hM, trM, q))
+		} else {
+			rm = append(rm, "panic")
+		}
 		rg = append(rg, serve(hG, trG, q))
 	}
 	o.resM, o.resG = strings.Join(rm, ","), strings.Join(rg, ",")
@@ -552,6 +602,10 @@ func (g *genCtx) items(depth int, ctxPrefix string, inMount bool, budget *int) [
 			if depth > 0 {
 				g.w.Count("mount-nested-or-in-group")
 			}
+			if r.Chance(1, 8) {
+				out = append(out, item{kind: 'D', path: gen.Pick(r, prefixes)})
+				g.w.Count("same-app-mounted-twice")
+			}
 		default:
 			p := g.path()
 			out = append(out, item{kind: 'R', ms: []int{0}, path: p, hs: g.hs(1, true)})
@@ -559,6 +613,15 @@ func (g *genCtx) items(depth int, ctxPrefix string, inMount bool, budget *int) [
 		}
 	}
 	return out
+}
+
+func hasMountItem(items []item) bool {
+	for _, it := range items {
+		if it.kind == 'M' || ((it.kind == 'G') && hasMountItem(it.sub)) {
+			return true
+		}
+	}
+	return false
 }
 
 var paramVals = []string{"acme", "5", "x", "A1", "v", "y"}
@@ -648,6 +711,16 @@ func main() {
 		g := &genCtx{r: r, w: w}
 		budget := 14
 		items := g.items(0, "", false, &budget)
+		if !hasMountItem(items) && r.Chance(6, 7) {
+			// most trees should exercise mounting: add one at a random position
+			budget = 5
+			p := gen.Pick(r, prefixes)
+			m := item{kind: 'M', path: p, cs: r.Chance(1, 4), str: r.Chance(1, 4), late: r.Chance(1, 3)}
+			m.sub = g.items(1, join("", p), true, &budget)
+			at := r.Intn(len(items) + 1)
+			items = append(items[:at], append([]item{m}, items[at:]...)...)
+			w.Count("mount")
+		}
 		cs, strict := r.Chance(1, 5), r.Chance(1, 5)
 		emit(w, fmt.Sprintf("s%d.%d", o.Seed, i), cs, strict, items, g.reqs(6))
 	}
